@@ -17,6 +17,12 @@ FIXED = [
  ("C06", "element_wrap refuses", "element_wrap of an attribute or namespace node detached it from its element and then returned an error"),
  ("C01", "in attribute values as character references", "TAB / LF / CR in an attribute value were serialized raw and came back as spaces (attribute-value normalization)"),
  ("C01", "CR in text as a character reference", "CR in a text node was serialized raw and came back as LF (line-end normalization)"),
+ ("C02", "xml:id normalization strips all", "xml:id values with two or more leading (or trailing) spaces kept all but one of them (xml_id_node did not find the normalised id)"),
+ ("C03", "close tag without an open element in a fragment", "parse_fragment panicked ('Cannot close document node') on a close tag without an open element, e.g. parse_fragment(\"</a>\")"),
+ ("C03", "may only contain digits", "character references with a sign after '#' or '#x' (&#+65; &#x+41;) were accepted"),
+ ("C03", "outside the XML Char production", "character references to code points outside the XML Char production (&#0; &#1; &#xFFFE;) were accepted"),
+ ("C03", "same expanded name on one element are rejected", "two attributes with different prefixes bound to the same namespace and the same local name (p:x / q:x) were accepted"),
+ ("C03", "declared twice on one element is rejected", "the same prefix (or xmlns) declared twice on one element was accepted"),
  ("C07", "reverse_children walks", "reverse_children(n) never terminated for a node with two or more ordinary children (indextree Children::next_back never advances); it yields the last child for ever"),
  ("C09", "prefix_for_namespace skips shadowed", "prefix_for_namespace returned None as soon as it met a prefix that a nearer declaration shadows, although another prefix (or the built-in xml prefix) was bound to the namespace further up"),
  ("C09", "qualified name of an attribute node never uses the empty prefix", "node_name_ref / name_ref / full_name on an attribute node whose namespace is only bound as the default namespace reported the empty prefix (which for an attribute means no namespace)"),
@@ -32,7 +38,16 @@ _DEFNS = {"class": "KF-no-namespace-element-under-default-namespace", "status": 
   "call_site": "src/output/fullname.rs FullnameSerializer::element_prefix (no-namespace branch returns Ok(None) without looking at the default binding)",
   "why_not_fixed": "needs a design decision (emit xmlns=\"\" on the fly, or refuse with an error); either changes the output of trees that serialise today"}
 
-OPEN = [
+def _kf(prop, cls, what, witness, site, why):
+    return {"property": prop, "class": cls, "status": "open", "what": what, "witness": witness, "call_site": site, "why_not_fixed": why}
+
+
+OPEN_PARSE = [
+ _kf("C03", "KF-C03-close-tag-matched-by-expanded-name", "a close tag with another prefix bound to the same namespace closes the element",
+     "<a xmlns:p='u' xmlns:q='u'><p:b></q:b></a>", "src/parse.rs DocumentBuilder::close_element (compares name ids)", "needs the prefix as written to be kept per open element; the tree built is the same either way"),
+]
+
+OPEN = OPEN_PARSE + [
  dict(_DEFNS, property="C01"),
  dict(_DEFNS, property="C10"),
  {"property": "C04", "class": "KF-C04-unwrap-parentless-element", "status": "open",
